@@ -434,3 +434,93 @@ func sortedKeys[V any](m map[string]V) []string {
 	sort.Strings(k)
 	return k
 }
+
+// ---- E1m: operation-sequence search over a MACRO alphabet. Where AddEdge sequences stop at 5..7 edges, sequences of
+// gadget insertions reach the shapes that need 7..12 edges with a few operations: each operation attaches one gadget
+// (a path, a fan of k sources or k sinks, a 3- or 4-cycle, a diamond, a triangle with a long edge) at an existing
+// node, or adds one edge between two existing nodes. States are canonicalised like E1 states and deduplicated.
+type macroOp struct {
+	kind int // 0 edge u->v, 1 u->new, 2 new->u, 3 fan-in 2, 4 fan-in 3, 5 fan-out 2, 6 fan-out 3, 7 3-cycle, 8 4-cycle, 9 diamond, 10 long-edge triangle
+	u, v int
+}
+
+func applyMacro(e []int, n int, op macroOp) ([]int, int) {
+	out := append([]int(nil), e...)
+	u := op.u
+	switch op.kind {
+	case 0:
+		out = append(out, u, op.v)
+	case 1:
+		out = append(out, u, n)
+		n++
+	case 2:
+		out = append(out, n, u)
+		n++
+	case 3, 4:
+		for k := 0; k < op.kind-1; k++ {
+			out = append(out, n, u)
+			n++
+		}
+	case 5, 6:
+		for k := 0; k < op.kind-3; k++ {
+			out = append(out, u, n)
+			n++
+		}
+	case 7:
+		out = append(out, u, n, n, n+1, n+1, u)
+		n += 2
+	case 8:
+		out = append(out, u, n, n, n+1, n+1, n+2, n+2, u)
+		n += 3
+	case 9:
+		out = append(out, u, n, u, n+1, n, n+2, n+1, n+2)
+		n += 3
+	case 10:
+		out = append(out, u, n, n, n+1, u, n+1)
+		n += 2
+	}
+	return out, n
+}
+
+// spaceMacro enumerates every state reachable by <= depth macro operations from the single node 0; edges between
+// existing nodes (kind 0) are only offered when withEdges is set (they multiply the branching factor).
+func spaceMacro(depth int, withEdges bool) func(emit func(Input)) {
+	return func(emit func(Input)) {
+		type st struct {
+			e []int
+			n int
+		}
+		seen := map[string]bool{}
+		frontier := []st{{nil, 1}}
+		for d := 0; d < depth; d++ {
+			var next []st
+			for _, s := range frontier {
+				var ops []macroOp
+				for u := 0; u < s.n; u++ {
+					for k := 1; k <= 10; k++ {
+						ops = append(ops, macroOp{k, u, 0})
+					}
+					if withEdges {
+						for v := 0; v < s.n; v++ {
+							if u != v {
+								ops = append(ops, macroOp{0, u, v})
+							}
+						}
+					}
+				}
+				for _, op := range ops {
+					e, n := applyMacro(s.e, s.n, op)
+					in := relabel(e)
+					k := fmt.Sprint(in.E)
+					if seen[k] {
+						continue
+					}
+					seen[k] = true
+					emit(in)
+					next = append(next, st{e, n})
+				}
+			}
+			frontier = next
+		}
+	}
+}
